@@ -305,7 +305,7 @@ def wl_shift(ctx, idx, rng):
     if N >= 3 and rng.random() < 0.5:
         x[0] += 5
         x[-1] += 7
-    sig, desc = gen.make_signal(rng, clsname, N, data=x, rate=rate, dask=use_dask, mem="rand")
+    sig, desc = gen.make_signal(rng, clsname, N, data=x, rate=rate, dask=use_dask, mem="readonly" if gen._side_rng(rng).random() < 0.1 else "rand")
     s = make_shift(rng, N, sshape, kind if whole is None else "int", shape_kind)
     sq = s
     if whole is not None:
